@@ -6,6 +6,12 @@ K: the real class is driven by write sequences under an instrumented, fault-inje
 path of fixes/C19-D27.patch) on: number of completed calls, exception kind, the complete sequence of OS
 open()/close() calls (path, mode, descriptors open before the call, outcome), openHandles keys, seen,
 pruneIntervalCounter, and the content of every file read back after close().
+
+Histories that continue after a raise (case['cont'] = 1): the harness catches whatever a write() raises and goes on
+with the same writer; compared with Model/C19x.v (mode 4 of run_C19x): one status per operation, the OS calls made
+by each operation (trace + per-operation marks), files after close(); the statement (Props/C19.v C19_hist_*) is
+evaluated on the implementation's outcome by spec_violations_hist (python transcription) and by Model.spec_histb
+(mode 5, proved sound for the model: C19_hist_spec_sound).
 """
 import ast, hashlib, itertools, os
 import fw, py2coq
@@ -227,8 +233,18 @@ class _Gen:
             raise Untranslatable('write: recovery branch is %r, expected close() [+ placeholder restore]' % acts)
         self.emit(rt, 'g_restores_placeholder', ': bool', t(restores))
         giveup = [st for st in rt.orelse if not self.is_print(st)]
+        # D33: is the empty placeholder entry of the path removed before the exception leaves write()?  (A placeholder left
+        # behind makes the next write() to this path skip the open block and makes prune() fail on the missing 'lastw'.)
+        drops = False
+        if len(giveup) == 2 and self.u(giveup[0]) in ('self.openHandles.pop(path, None)', 'self.openHandles.pop(path)',
+                                                      'del self.openHandles[path]'):
+            if not restores and self.u(giveup[0]) != 'self.openHandles.pop(path, None)':
+                raise Untranslatable('write: the give-up branch removes a placeholder that close() already removed')
+            drops, giveup = True, giveup[1:]
         if not (len(giveup) == 1 and isinstance(giveup[0], ast.Raise) and giveup[0].exc is None):
             raise Untranslatable('write: the give-up branch does not re-raise the exception')
+        self.emit(rt, 'g_giveup_drops_placeholder', ': bool', t(drops),
+                  note='(the give-up branch removes the placeholder entry of the path before re-raising)')
         # 5. the write itself goes through self.openHandles[path]['handle']
         wsrc = self.u(wr)
         if not (isinstance(wr, ast.If) and self.u(wr.test) == 'method == 0' and len(wr.body) == 1 and len(wr.orelse) == 1
@@ -361,16 +377,26 @@ def fa_consistent(ops):
     return True
 
 
-def expected_files(case, k):
-    """python transcription of Model.expected: content of every file after the first k writes"""
+def expected_files(case, k, done=None):
+    """python transcription of Model.expected: content of every file after the first k writes (or after the
+    operations listed in done)"""
     init = {pid: c for pid, c in case['init']}
     out, started = dict(init), set()
-    for pid, s, fa in case['ops'][:k]:
+    for pid, s, fa in (case['ops'][:k] if done is None else done):
         if pid not in started:
             started.add(pid)
             out[pid] = (init.get(pid, '') if fa else '')
         out[pid] += s
     return {pid: out.get(pid) for pid in case['univ']}
+
+
+def can_fail_alone(sc, pid):
+    """Model.script_can_fail_alone: can an open() of this path fail under the script while nothing is open"""
+    return bool(sc.get('hard')) or pid in sc.get('perm', [])
+
+
+def completed_ops(case, statuses):
+    return [op for op, st in zip(case['ops'], statuses) if st == 0]
 
 
 def script_good(case):
@@ -406,6 +432,23 @@ def canon_model(mv):
             'files': [[p, (fw.as_str(c[0]) if c else None)] for p, c in files]}
 
 
+def canon_model_hist(mv):
+    sts, tr, opn, _ghosts, seen, ctr, files, marks = mv
+    return {'statuses': sts, 'trace': canon_trace(tr), 'marks': marks, 'open': sorted(opn), 'seen': sorted(seen), 'ctr': ctr,
+            'files': [[p, (fw.as_str(c[0]) if c else None)] for p, c in files]}
+
+
+def canon_impl_hist(r):
+    """a history: one status per operation (0 returned, 1 OSError, 2 KeyError, 3 never returns, text otherwise); which
+    entries a raise leaves in openHandles is not compared (internal) - what they cause later is (statuses)"""
+    if r.get('error'):
+        return {'error': r['error']}
+    internal = isinstance(r['open'], list)
+    return {'statuses': r['statuses'], 'trace': canon_trace(r['trace']), 'marks': r['marks'],
+            'open': sorted(r['open']) if internal else None, 'seen': r['seen'] if internal else None,
+            'ctr': r['ctr'] if internal else None, 'files': sorted(r['files'])}
+
+
 def canon_impl(r):
     if r.get('error'):
         return {'error': r['error']}
@@ -419,7 +462,7 @@ def canon_impl(r):
 
 
 def first_diff(a, b):
-    for key in ('error', 'k', 'status', 'files', 'open', 'seen', 'ctr', 'trace'):
+    for key in ('error', 'k', 'status', 'statuses', 'files', 'open', 'seen', 'ctr', 'marks', 'trace'):
         if key in ('open', 'seen', 'ctr') and b.get(key) is None and 'error' not in b:
             continue
         if a.get(key) != b.get(key):
@@ -443,9 +486,85 @@ def nontrivial(r):
     return any(e[0] == 0 and (e[4] == 0 or e[2] == 1) for e in r['trace'])
 
 
+def continues_after_raise(r):
+    """a history in which some operation raised and a later one was attempted"""
+    sts = r.get('statuses') or []
+    return any(st != 0 for st in sts[:-1])
+
+
+def spec_violations_hist(case, r):
+    """C19_hist_content / C19_hist_raise_only_if_hopeless / C19_hist_openable_never_raises / C19_hist_no_leak
+    transcribed to python and evaluated on the implementation's outcome of a history that continues after a raise.
+    returns [(key, text)] (first violation of each kind)"""
+    if r.get('error'):
+        return [('harness-error', 'the harness could not run the case: ' + r['error'])]
+    v, have = [], set()
+
+    def add(key, text):
+        if key not in have:
+            have.add(key)
+            v.append((key, text))
+    ops, sts, marks, sc = case['ops'], r['statuses'], r['marks'], case['script']
+    raised = []     # indices of earlier calls that raised
+    livelock = False
+    for j, st in enumerate(sts):
+        pid = ops[j][0]
+        after = (' after write() call(s) %r had raised and the caller carried on' % (raised[:4],)) if raised else ''
+        if st == 3 or (isinstance(st, str) and 'Livelock' in st):
+            livelock = True
+            add('livelock', 'write() call %d (path %r) never returns%s: open() keeps failing with no other handle open and the '
+                'writer keeps retrying (more than 60 consecutive failed open() calls) instead of raising' % (j, pid, after))
+        elif st not in (0, 1):
+            name = 'KeyError' if st == 2 else st
+            if raised:
+                add('keyerror-after-raise' if st == 2 else 'other-exception-after-raise',
+                    'write() call %d (path %r) raised %s%s; it may raise only the OSError of an open() of its own path that '
+                    'failed with every other handle closed' % (j, pid, name, after))
+            else:
+                add('retry-keyerror' if st == 2 else 'other-exception',
+                    'write() call %d (path %r) raised %s instead of retrying / re-raising the OSError' % (j, pid, name))
+        elif st == 1:
+            seg = r['trace'][(marks[j - 1] if j else 0):marks[j]]
+            att = [e for e in seg if e[0] == 0]
+            last = att[-1] if att else None
+            if not (last and last[4] == 0 and last[3] == 0 and last[1] == pid):
+                add('raise-not-hopeless', 'write() call %d (path %r) raised%s although its last open() was not a failure of '
+                    'that path with every other handle closed (last open call of this write: %r)' % (j, pid, after, last))
+            if not can_fail_alone(sc, pid):
+                add('raise-under-good-script', 'write() call %d (path %r) raised%s although open() of that path never fails '
+                    'with all other handles closed in this fault script' % (j, pid, after))
+        if st != 0:
+            raised.append(j)
+    if len(sts) != len(ops) and not livelock:
+        add('harness-error', 'only %d of %d operations have a result' % (len(sts), len(ops)))
+    if fa_consistent(ops):
+        done = completed_ops(case, sts)
+        exp = expected_files(case, 0, done)
+        got = {p: c for p, c in r['files']}
+        for p in case['univ']:
+            if got.get(p) != exp.get(p):
+                add('content', 'file %r contains %r after close(); the completed writes to it (calls that returned), in order, '
+                    'are %r; results of the calls: %r' % (p, got.get(p), exp.get(p), sts[:30]))
+                break
+    if r['read_errors']:
+        add('invalid-file', '; '.join(r['read_errors'][:2]))
+    if r['leaked']:
+        add('leak', '%d descriptor(s) still open after close()' % r['leaked'])
+    if r['close_error']:
+        add('close-raised', 'close() raised ' + r['close_error'])
+    if r.get('seen_foreign'):
+        add('state-shared', 'self.seen of a new writer already contains paths it never wrote (state shared between '
+            'instances): %r' % (r['seen_foreign'],))
+    if r['unknown_paths']:
+        add('foreign-path', 'opened a path that no write named: %r' % r['unknown_paths'])
+    return v
+
+
 def spec_violations(case, r):
     """the theorem statements (C19_content / C19_prefix / C19_raise_only_if_hopeless) transcribed to
     python and evaluated on the implementation's outcome only.  returns [(key, text)]"""
+    if case.get('cont'):
+        return spec_violations_hist(case, r)
     if r.get('error'):
         return [('harness-error', 'the harness could not run the case: ' + r['error'])]
     v = []
@@ -495,6 +614,12 @@ def spec_violations(case, r):
 def fastq_as_case(fc, res):
     """the HandleLimiter-level case a FastqHandle run amounts to (strings = str(record) as reported)"""
     ops = []
+    if fc.get('cont'):
+        # a continuing history: the operations are the HandleLimiter.write calls FastqHandle actually made (the R2 call of a
+        # pair whose R1 call raised is never made)
+        cfg = res.get('cfg', {'maxHandles': fc['maxHandles'], 'pruneEvery': 10000})
+        return {'maxHandles': cfg['maxHandles'], 'pruneEvery': cfg['pruneEvery'], 'script': fc['script'], 'init': [],
+                'ops': [[pid, s, 0] for pid, s in res.get('calls', [])], 'plain': [], 'univ': sorted(fc['names'].values()), 'cont': 1}
     for pair, strs in zip(fc['pairs'], res.get('strings', [])):
         for (tags, _s, _q), R, s in zip(pair, ('R1', 'R2'), strs):
             t = dict(tags)
@@ -558,6 +683,12 @@ class Prop(fw.PropBase):
         'of a case; real descriptor exhaustion is exercised only in the rlimit cases (RLIMIT_NOFILE lowered)',
         'the model is the REPAIRED retry path (fixes/C19-D27.patch); Model fixed:=false is the code as found and is '
         'proved to fail (C19_unrepaired_refuted)',
+        'histories that continue after a raise (Model/C19x.v): modelled - the state a raise leaves behind (openHandles entries '
+        'with and without a handle, seen, counter, files), with the decision whether the placeholder entry is removed before '
+        'the re-raise regenerated from the source (g_giveup_drops_placeholder; fixes/C19-D33.patch makes it true, the kernel '
+        'with drops:=false is the code as found and is proved to fail: C19_D33_unrepaired_refuted / _loses_record). The '
+        'harness plays the caller: it catches every exception of write() and continues with the same object; exceptions that '
+        'are not Exception subclasses and callers that re-use the writer after close() are outside the model',
         'bamSplitByTag.py does not use HandleLimiter: it bounds the open writers by splitting in several passes. Modelled: '
         'split_bam_by_tag with head=None and the loop of the __main__ block (located in the AST and executed by the '
         'harness); outside the model: pysam BAM reading/writing, get_valid_filename (the model works on the sanitised '
@@ -565,7 +696,8 @@ class Prop(fw.PropBase):
     ]
     ASSUMPTIONS = [
         'an open() succeeds whenever no other handle of the writer is open (otherwise the call raises - '
-        'C19_raise_only_if_hopeless - and the files hold exactly the completed writes - C19_prefix)',
+        'C19_raise_only_if_hopeless - and the files hold exactly the completed writes - C19_prefix; a caller that catches the '
+        'OSError may go on writing: C19_hist_*)',
         'forceAppend is used consistently per path (FastqHandle never passes it); first write of a path without '
         'forceAppend truncates a pre-existing file by design',
         'method is 0 (plain) or 1 (gzip) and constant per path; method=None opens in text mode and then writes bytes '
@@ -579,26 +711,28 @@ class Prop(fw.PropBase):
         return regen_handles()
 
     # ---------------------------------------------------------------- generators
-    def rand_string(self, i, pid):
-        r = self.rng.random()
+    def rand_string(self, i, pid, rng=None):
+        rng = rng or self.rng
+        r = rng.random()
         if r < 0.04:
             return ''
         if r < 0.5:
             return 'r%dp%d\n' % (i, pid)
-        n = self.rng.randint(1, 12)
-        return '%d:' % i + ''.join(self.rng.choice(CHARS) for _ in range(n))
+        n = rng.randint(1, 12)
+        return '%d:' % i + ''.join(rng.choice(CHARS) for _ in range(n))
 
-    def rand_exc(self):
+    def rand_exc(self, rng=None):
         """kinds of the injected open() failures, used in rotation (the model's oracle does not see them)"""
-        r = self.rng.random()
+        rng = rng or self.rng
+        r = rng.random()
         if r < 0.3:
             return ['EMFILE']
         if r < 0.6:
-            return [self.rng.choice(EXC_KINDS[1:])]
-        return [self.rng.choice(EXC_KINDS) for _ in range(self.rng.randint(2, 4))]
+            return [rng.choice(EXC_KINDS[1:])]
+        return [rng.choice(EXC_KINDS) for _ in range(rng.randint(2, 4))]
 
-    def gen_case(self, big=False):
-        rng = self.rng
+    def gen_case(self, big=False, rng=None):
+        rng = rng or self.rng
         npaths = rng.choice([1, 2, 3, 3, 4, 5, 6, 8, 12]) if not big else rng.choice([30, 60, 120, 200])
         nops = rng.randint(1, 40) if not big else rng.randint(150, 500)
         pids = rng.sample(range(1, 400), npaths)
@@ -612,7 +746,7 @@ class Prop(fw.PropBase):
             fa = fa_of[pid]
             if mode > 0.93 and rng.random() < 0.3:
                 fa = 1 - fa   # inconsistent forceAppend: outside the theorem, model and code must still agree
-            ops.append([pid, self.rand_string(i, pid), fa])
+            ops.append([pid, self.rand_string(i, pid, rng), fa])
         init = [[p, 'old%d\n' % p] for p in pids if rng.random() < 0.25]
         extra = [p for p in rng.sample(range(400, 420), 2)]
         if rng.random() < 0.3:
@@ -622,11 +756,90 @@ class Prop(fw.PropBase):
               'soft': sorted(rng.sample(range(natt), rng.choice([0, 0, 1, 2, 3, min(8, natt)]))),
               'hard': sorted(rng.sample(range(natt), rng.choice([0, 0, 0, 0, 1, 2]))),
               'perm': [rng.choice(pids)] if rng.random() < 0.12 else [],
-              'exc': self.rand_exc()}
+              'exc': self.rand_exc(rng)}
         return {'maxHandles': rng.choice([1, 1, 2, 2, 3, 4, 4, 0, 5, 32]) if not big else rng.choice([1, 4, 16, 64, 500]),
                 'pruneEvery': rng.choice([1, 1, 2, 3, 4, 5, 5, 7, 0, 10000]) if not big else rng.choice([1, 5, 50, 10000]),
                 'script': sc, 'init': init, 'ops': ops, 'plain': plain,
                 'univ': sorted(set(pids) | set(extra))}
+
+    # ---- histories that continue after a raise
+    def cont_rng(self):
+        """a second PRNG for the continuing-history stream, derived from (not consuming) the state of the main one, so that
+        the stop-at-first-raise stream of a seed stays what it was and every fallback pass still gets a fresh stream"""
+        import random
+        return random.Random('C19x:%r' % (self.rng.getstate()[1][:6],))
+
+    def gen_cont_case(self, rng, big=False):
+        """a write sequence whose caller catches what write() raises and carries on: permanent failure of one (or two)
+        of several paths, transient failures that hit an open() made with nothing else open, EMFILE limits, mixtures"""
+        c = self.gen_case(big=big, rng=rng)
+        c['cont'] = 1
+        pids = sorted(set(o[0] for o in c['ops']))
+        nops = len(c['ops'])
+        sc = c['script']
+        kind = rng.random()
+        if kind < 0.45:
+            # permanent failure of one path among several (the quantifier's third fault class), often a busy one
+            hot = c['ops'][rng.randrange(nops)][0]
+            sc['perm'] = sorted(set([hot] + ([rng.choice(pids)] if rng.random() < 0.25 else [])))
+            sc['hard'] = []
+            if rng.random() < 0.5:
+                sc['soft'] = []
+        elif kind < 0.75:
+            # transient failures: indices of open() calls that fail whatever is open (one or a short burst, so that the
+            # retry made after close() fails as well)
+            first = rng.randrange(max(1, min(nops, 12)))
+            burst = rng.choice([1, 1, 2, 2, 3])
+            extra = rng.sample(range(nops + 5), rng.choice([0, 0, 1, 2]))
+            sc['hard'] = sorted(set(list(range(first, first + burst)) + extra))
+            sc['perm'] = [rng.choice(pids)] if rng.random() < 0.2 else []
+        elif kind < 0.9:
+            # EMFILE limit 1/2 (every second path needs the recovery) with one dead path
+            sc['limit'] = rng.choice([1, 1, 2, 3])
+            sc['perm'] = [rng.choice(pids)]
+            sc['hard'] = []
+        # else: whatever gen_case drew (includes scripts under which nothing raises)
+        if rng.random() < 0.5:
+            # prune() on (nearly) every write with a small limit: where a stale entry would be met
+            c['maxHandles'] = rng.choice([0, 1, 1, 2])
+            c['pruneEvery'] = rng.choice([1, 1, 2, 3])
+        return c
+
+    def exhaustive_cont_cases(self):
+        """continuing histories: all write sequences of length <= L on 3 paths (up to renaming) x fault scripts with a
+        fault that can make a write raise (a dead path / a failing open() call index) plus at most one more fault x
+        EMFILE limit 0/1/2 x small configurations"""
+        thorough = self.tier == 'thorough'
+        L = 5 if thorough else 4
+        cfgs = [(1, 1), (1, 2), (2, 1), (2, 3)] if thorough else [(1, 1), (2, 2)]
+        primary = [('perm', 1), ('perm', 2), ('perm', 3)] + [('hard', i) for i in range(4)]
+        secondary = [None] + [('soft', i) for i in range(4)] + [('hard', i) for i in range(1, 5)] + [('perm', 2), ('perm', 3)]
+        scripts = []
+        for limit in (0, 1, 2):
+            for a in primary:
+                for b in secondary:
+                    if b is not None and (b == a or (b[0] == a[0] and b[1] < a[1])):
+                        continue
+                    sc = {'limit': limit, 'soft': [], 'hard': [], 'perm': []}
+                    for kind, i in (a,) + ((b,) if b else ()):
+                        sc[kind].append(i)
+                    scripts.append(sc)
+        if not thorough:
+            scripts = [s for j, s in enumerate(scripts) if j % 5 == 0]
+        out = []
+        for n in range(2, L + 1):
+            for seq in itertools.product((1, 2, 3), repeat=n):
+                if seq[0] != 1 or any(seq[j] > max(seq[:j]) + 1 for j in range(1, n)):
+                    continue
+                ops = [[p, '%d%s' % (i, 'abc'[p - 1]), 0] for i, p in enumerate(seq)]
+                for (mh, pe) in cfgs:
+                    for sc in scripts:
+                        if any(p > max(seq) for p in sc['perm']):
+                            continue    # the dead path is not written
+                        sc = dict(sc, exc=[EXC_KINDS[len(out) % len(EXC_KINDS)], EXC_KINDS[(len(out) // 7) % len(EXC_KINDS)]])
+                        out.append({'maxHandles': mh, 'pruneEvery': pe, 'script': sc, 'init': [[1, 'old']],
+                                    'ops': ops, 'plain': [3], 'univ': [1, 2, 3], 'cont': 1})
+        return out
 
     def exhaustive_cases(self):
         """all write sequences of length <= L on 3 paths x fault scripts of <= 2 faults x small configurations"""
@@ -656,12 +869,14 @@ class Prop(fw.PropBase):
                                     'ops': ops, 'plain': [3], 'univ': [1, 2, 3]})
         return out
 
-    def fastq_cases(self):
-        rng = self.rng
+    def fastq_cases(self, rng=None, cont=False):
+        """cont: the caller catches what FastqHandle.write raises and carries on; the files of one or two cells can never be
+        opened (second PRNG, see cont_rng)"""
+        rng = rng or self.rng
         out = []
-        n = 3 if self.tier == 'quick' else 12
+        n = (2 if self.tier == 'quick' else 10) if cont else (3 if self.tier == 'quick' else 12)
         for j in range(n):
-            long = (j == 0)  # one case crosses the default pruneEvery=10000 of FastqHandle's limiter
+            long = (j == 0) and not cont  # one case crosses the default pruneEvery=10000 of FastqHandle's limiter
             ncells = rng.choice([40, 70]) if long else rng.choice([2, 5, 12, 30])
             npairs = 5200 if long else rng.randint(5, 120)
             cells = ['c%d' % i for i in range(ncells)]
@@ -682,9 +897,15 @@ class Prop(fw.PropBase):
                 pairs.append(pair)
             sc = {'limit': rng.choice([0, 3, 7, 20]) if not long else rng.choice([11, 25]),
                   'soft': sorted(rng.sample(range(npairs), min(npairs, rng.choice([0, 2, 5])))), 'hard': [], 'perm': [],
-                  'exc': self.rand_exc()}
-            out.append({'prefix': prefix, 'maxHandles': rng.choice([1, 2, 8, 500]) if not long else 8,
-                        'script': sc, 'pairs': pairs, 'names': names})
+                  'exc': self.rand_exc(rng)}
+            fc = {'prefix': prefix, 'maxHandles': rng.choice([1, 2, 8, 500]) if not long else 8,
+                  'script': sc, 'pairs': pairs, 'names': names}
+            if cont:
+                fc['cont'] = 1
+                sc['perm'] = sorted(rng.sample(sorted(names.values()), min(len(names), rng.choice([1, 1, 2]))))
+                if rng.random() < 0.5:
+                    sc['hard'] = sorted(rng.sample(range(2 * npairs), min(2 * npairs, rng.choice([1, 2]))))
+            out.append(fc)
         return out
 
     def bamsplit_cases(self):
@@ -723,23 +944,32 @@ class Prop(fw.PropBase):
             for f in sorted(os.listdir(cdir)):
                 if f.endswith('.json'):
                     corpus.append(json.load(open(os.path.join(cdir, f)))['case'])
+        xr = self.cont_rng()
         rnd = [self.gen_case() for _ in range(2500 if quick else 20000)]
         big = [self.gen_case(big=True) for _ in range(6 if quick else 60)]
         exh = self.exhaustive_cases()
-        return corpus, rnd, big, exh
+        crnd = [self.gen_cont_case(xr) for _ in range(1200 if quick else 12000)] + \
+               [self.gen_cont_case(xr, big=True) for _ in range(3 if quick else 30)]
+        cexh = self.exhaustive_cont_cases()
+        return corpus, rnd, big, exh, crnd, cexh
 
     # ---------------------------------------------------------------- K
     def run_everything(self):
-        corpus, rnd, big, exh = self.all_cases()
-        cases = corpus + rnd + big + exh
+        corpus, rnd, big, exh, crnd, cexh = self.all_cases()
+        cases = corpus + rnd + big + exh + crnd + cexh
         fq, rl = self.fastq_cases(), self.rlimit_cases()
-        chunk = 4000
+        fq = fq + self.fastq_cases(rng=self.cont_rng(), cont=True)
+        # the implementation runner is started on chunks of the cases, three processes at a time (each has its own scratch
+        # directory, fault injector and descriptor limit), next to the FastqHandle / rlimit / bamSplitByTag batch
+        from concurrent.futures import ThreadPoolExecutor
+        chunk = 4000 if len(cases) > 12000 else max(1, -(-len(cases) // 3))
         res = {'cases': [], 'fastq': [], 'rlimit': []}
-        for a in range(0, len(cases), chunk):
-            part = fw.run_impl('impl_c19.py', {'cases': cases[a:a + chunk]})
-            res['cases'] += part['cases']
-        bs = self.bamsplit_cases()
-        part = fw.run_impl('impl_c19.py', {'fastq': fq, 'rlimit': rl, 'bamsplit': bs})
+        with ThreadPoolExecutor(max_workers=3) as ex:
+            futs = [ex.submit(fw.run_impl, 'impl_c19.py', {'cases': cases[a:a + chunk]}) for a in range(0, len(cases), chunk)]
+            bs = self.bamsplit_cases()
+            part = fw.run_impl('impl_c19.py', {'fastq': fq, 'rlimit': rl, 'bamsplit': bs})
+            for f in futs:
+                res['cases'] += f.result()['cases']
         res['fastq'], res['rlimit'] = part['fastq'], part['rlimit']
         self.bruns = list(zip(bs, part['bamsplit']))
         self.fastq_inputs = fq
@@ -754,7 +984,9 @@ class Prop(fw.PropBase):
             runs.append(('rlimit', c2, r))
         self.runs = runs
         self.sizes = {'corpus': len(corpus), 'random': len(rnd), 'large': len(big), 'exhaustive_small': len(exh),
-                      'fastq_end_to_end': len(fq), 'real_rlimit': len(rl), 'bamSplitByTag': len(bs)}
+                      'continuing_random': len(crnd), 'continuing_exhaustive_small': len(cexh),
+                      'fastq_end_to_end': len(fq), 'fastq_end_to_end_continuing': sum(1 for f in fq if f.get('cont')),
+                      'real_rlimit': len(rl), 'bamSplitByTag': len(bs)}
         return runs
 
     def correspondence(self):
@@ -763,6 +995,9 @@ class Prop(fw.PropBase):
         nt = set()
         h_paths, h_mh, h_pe, h_lim, h_status, h_exc = {}, {}, {}, {}, {}, {}
         n_fail_open = n_reopen = n_recover = good = 0
+        n_cont = n_cont_raise = n_ops_after_raise = n_ok_after_raise = n_raises = n_reraise_same = n_openable_after = 0
+        cont_nt = set()
+        h_raises = {}
 
         def bump(h, k):
             h[str(k)] = h.get(str(k), 0) + 1
@@ -774,8 +1009,30 @@ class Prop(fw.PropBase):
             bump(h_mh, c['maxHandles']); bump(h_pe, c['pruneEvery']); bump(h_lim, c['script'].get('limit', 0))
             for kind in set(c['script'].get('exc') or ['EMFILE']):
                 bump(h_exc, kind)
+            if c.get('cont') and not r.get('error'):
+                n_cont += 1
+                sts = r['statuses']
+                nr = sum(1 for x in sts if x != 0)
+                bump(h_raises, nr if nr < 4 else '4+')
+                n_raises += nr
+                if continues_after_raise(r):
+                    n_cont_raise += 1
+                    cont_nt.add(fw.canon_hash([l, model_input(c)]))
+                    first = next(i for i, x in enumerate(sts) if x != 0)
+                    n_ops_after_raise += len(sts) - first - 1
+                    n_ok_after_raise += sum(1 for x in sts[first + 1:] if x == 0)
+                    dead = set()
+                    for (pid, _s, _fa), x in zip(c['ops'], sts):
+                        if x != 0:
+                            n_reraise_same += pid in dead
+                            dead.add(pid)
+                        elif dead and not can_fail_alone(c['script'], pid):
+                            n_openable_after += 1
             if not r.get('error'):
-                bump(h_status, {0: 'completed', 1: 'raised OSError'}.get(r['status'], 'raised other'))
+                bump(h_status, ('history: no raise' if all(x == 0 for x in r['statuses']) else
+                                'history: raises, all OSError' if all(x in (0, 1) for x in r['statuses']) else
+                                'history: raised other') if c.get('cont') else
+                     {0: 'completed', 1: 'raised OSError'}.get(r['status'], 'raised other'))
                 n_fail_open += sum(1 for e in r['trace'] if e[0] == 0 and e[4] == 0)
                 n_reopen += sum(1 for e in r['trace'] if e[0] == 0 and e[4] == 1 and e[2] == 1)
                 n_recover += sum(1 for i, e in enumerate(r['trace']) if e[0] == 0 and e[4] == 0 and e[3] > 0)
@@ -793,10 +1050,24 @@ class Prop(fw.PropBase):
             'open_calls_failed': n_fail_open, 'reopens_in_append_mode': n_reopen,
             'recoveries_close_all_and_retry': n_recover,
             'precondition_hit_rate': round(good / max(1, len(ok_runs)), 4),
+            'continuing_histories': {
+                'runs': n_cont, 'runs_with_a_raise_followed_by_more_writes': n_cont_raise,
+                'distinct_such_runs': len(cont_nt), 'raises': n_raises, 'histogram_raises_per_history': h_raises,
+                'operations_attempted_after_a_first_raise': n_ops_after_raise,
+                'of_which_completed': n_ok_after_raise,
+                'completed_writes_to_openable_paths_after_a_raise': n_openable_after,
+                'repeated_raises_for_the_same_path': n_reraise_same,
+                'rule': 'case["cont"] = 1: the harness catches what write() raises and continues with the same HandleLimiter; '
+                        'compared with Model/C19x.v (statuses, per-operation OS calls, files)'},
             'exhaustive': False,
             'exhaustive_small_scope': 'inside the sampled run: all write sequences (up to renaming of paths) of length <= %d on 3 '
                                       'paths x %s fault scripts with <= 2 faults x EMFILE limit 0/1/2 x %d configurations'
                                       % ((5, 'all', 4) if self.tier == 'thorough' else (4, 'every third of the', 2)),
+            'exhaustive_small_scope_continuing': 'continuing histories, inside the sampled run: all write sequences (up to renaming of '
+                                                 'paths) of length 2..%d on 3 paths x %s fault scripts made of one fault that can make a '
+                                                 'write raise (dead path 1/2/3 or failing open() call 0..3) and at most one more fault x '
+                                                 'EMFILE limit 0/1/2 x %d configurations'
+                                                 % ((5, 'all', 4) if self.tier == 'thorough' else (4, 'every fifth of the', 2)),
             'samples': [{'case': {k: v for k, v in c.items()}, 'impl': {k: r.get(k) for k in ('k', 'status', 'trace', 'files')}}
                         for l, c, r in ok_runs[len(ok_runs) // 3: len(ok_runs) // 3 + 2] if len(c['ops']) < 15][:2],
         })
@@ -805,10 +1076,19 @@ class Prop(fw.PropBase):
             raise fw.Broken('correspondence', 'implementation runner failed on %d cases; first: %s' % (len(harness_err), harness_err[0]))
         if not self.model_ok:
             return
-        mouts = fw.run_model('C19', 0, [model_input(c) for l, c, r in ok_runs])
+        stop_i = [i for i, (l, c, r) in enumerate(ok_runs) if not c.get('cont')]
+        cont_i = [i for i, (l, c, r) in enumerate(ok_runs) if c.get('cont')]
+        mouts = [None] * len(ok_runs)
+        for i, mv in zip(stop_i, fw.run_model('C19', 0, [model_input(ok_runs[i][1]) for i in stop_i])):
+            mouts[i] = mv
+        for i, mv in zip(cont_i, fw.run_model('C19', 4, [model_input(ok_runs[i][1]) for i in cont_i])):
+            mouts[i] = mv
         dis = []
         for (l, c, r), mv in zip(ok_runs, mouts):
-            d = first_diff(canon_model(mv), canon_impl(r))
+            if c.get('cont'):
+                d = first_diff(canon_model_hist(mv), canon_impl_hist(r))
+            else:
+                d = first_diff(canon_model(mv), canon_impl(r))
             if d:
                 dis.append({'entry': l, 'case': c, 'diff': d})
         # bamSplitByTag: model mode 3 on the sanitised tag values
@@ -836,17 +1116,31 @@ class Prop(fw.PropBase):
         self.cov['bamsplit_runs_compared'] = len(self.bruns)
         self.cov['bamsplit_multi_pass_runs'] = sum(1 for c, r in self.bruns if r.get('passes', 0) > 1)
         # the boolean specification of the theorem (Model.specb, mode 2) on the implementation's outcome
-        spec_in = [model_input(c) + [r['k'], [[p, ([s] if s is not None else [])] for p, s in r['files']]] for l, c, r in ok_runs]
-        sb = fw.run_model('C19', 2, spec_in)
-        pre = fw.run_model('C19', 1, [model_input(c) for l, c, r in ok_runs])
-        spec_false = [i for i, v in enumerate(sb) if v != 1 and pre[i][1] == 1]
+        def obs_files(r):
+            return [[p, ([s] if s is not None else [])] for p, s in r['files']]
+        sb = fw.run_model('C19', 2, [model_input(ok_runs[i][1]) + [ok_runs[i][2]['k'], obs_files(ok_runs[i][2])] for i in stop_i])
+        pre = fw.run_model('C19', 1, [model_input(ok_runs[i][1]) for i in stop_i])
+        spec_false = [i for i, v, pv in zip(stop_i, sb, pre) if v != 1 and pv[1] == 1]
         self.cov['specb_on_impl_outputs'] = {'evaluated': len(sb), 'false': len(spec_false)}
+        # Model.spec_histb (mode 5) on the implementation's histories; statuses outside {0, 1} are sent as 9 (= not EOS)
+        hb = fw.run_model('C19', 5, [model_input(ok_runs[i][1]) + [[x if x in (0, 1, 2, 3) else 9 for x in ok_runs[i][2]['statuses']],
+                                                                    obs_files(ok_runs[i][2])] for i in cont_i])
+        hist_false = [i for i, v in zip(cont_i, hb) if v[0] != 1 and v[1] == 1]
+        self.cov['spec_histb_on_impl_histories'] = {'evaluated': len(hb), 'false': len(hist_false)}
+        spec_false += hist_false
         self.cov['traces_validated_against_impl'] = len(ok_runs)
         self.cov['disagreements'] = len(dis)
-        small = [i for i, (l, c, r) in enumerate(ok_runs) if len(c['ops']) <= 45]
+        small = [i for i, (l, c, r) in enumerate(ok_runs) if len(c['ops']) <= 45 and not c.get('cont')]
         idx = sorted(self.rng.sample(small, min(100, len(small))))
         okv, nm, log = fw.vm_crosscheck('C19', 0, [(model_input(ok_runs[i][1]), mouts[i]) for i in idx])
         self.cov['vm_compute_crosscheck'] = {'cases': len(idx), 'mismatches': nm}
+        if okv:
+            xr = self.cont_rng()
+            csmall = [i for i in cont_i if len(ok_runs[i][1]['ops']) <= 45 and continues_after_raise(ok_runs[i][2])] or cont_i
+            cidx = sorted(xr.sample(csmall, min(100, len(csmall))))
+            okv, nmc, log = fw.vm_crosscheck('C19', 4, [(model_input(ok_runs[i][1]), mouts[i]) for i in cidx],
+                                             run_name='run_C19x', require='Model.C19x')
+            self.cov['vm_compute_crosscheck_histories'] = {'cases': len(cidx), 'mismatches': nmc}
         if okv:
             bsmall = [i for i, b in enumerate(bin_) if len(b[1]) <= 60][:20]
             okv, nm2, log = fw.vm_crosscheck('C19', 3, [(bin_[i], bout[i]) for i in bsmall])
@@ -876,7 +1170,8 @@ class Prop(fw.PropBase):
                 rank = (l != 'limiter', len(c['ops']))
                 if key not in found or rank < found[key][5]:
                     found[key] = (l, c, r, text, fc, rank)
-        order = ['retry-keyerror', 'livelock', 'other-exception', 'content', 'raise-under-good-script', 'raise-not-hopeless',
+        order = ['retry-keyerror', 'livelock', 'other-exception', 'keyerror-after-raise', 'other-exception-after-raise', 'content',
+                 'raise-under-good-script', 'raise-not-hopeless',
                  'state-shared', 'invalid-file', 'leak', 'close-raised', 'foreign-path', 'harness-error']
         keys = sorted(found, key=lambda k: order.index(k) if k in order else 99)
         jobs = []
@@ -912,6 +1207,22 @@ class Prop(fw.PropBase):
                     inp = sh['fastq'] if l == 'fastq' else c2
             if l == 'fastq':
                 entry = 'FastqHandle(single_cell=True) -> HandleLimiter'
+            if c.get('cont'):
+                # a history: the caller catches every exception and carries on; expected files = the writes of the calls that
+                # may not raise (their path can be opened with everything else closed) when only dead paths make calls raise
+                sure = [op for op in c['ops'] if not can_fail_alone(c['script'], op[0])]
+                exp = expected_files(c, 0, sure) if not c['script'].get('hard') else None
+                self.witnesses.append({
+                    'key': key, 'what': '%s(maxHandles=%r, pruneEvery=%r), the caller catches what write() raises and carries on '
+                                        'with the same writer; pre-existing files %r, writes %r, fault script %r: %s'
+                                        % (entry, c['maxHandles'], c['pruneEvery'], c['init'],
+                                           [(o[0], o[1]) + (('forceAppend',) if o[2] else ()) for o in c['ops']][:12], c['script'], text),
+                    'input': inp, 'impl': {k: r.get(k) for k in ('statuses', 'files', 'trace', 'marks', 'leaked', 'read_errors')},
+                    'expected': {'statuses': ['0 or 1 (OSError)' if can_fail_alone(c['script'], op[0]) else 0 for op in c['ops']],
+                                 'status': 'a call raises only the OSError of an open() of its own path that failed with no other '
+                                           'handle open; every file holds exactly the writes of the calls that returned',
+                                 'files': sorted(exp.items()) if exp is not None else 'the writes of the calls that returned, in order'}})
+                continue
             exp = expected_files(c, len(c['ops']))
             self.witnesses.append({
                 'key': key, 'what': '%s(maxHandles=%r, pruneEvery=%r), pre-existing files %r, writes %r, fault script %r: %s'
@@ -951,8 +1262,8 @@ class Prop(fw.PropBase):
         else:
             r = fw.run_impl('impl_c19.py', {'cases': [inp]})['cases'][0]
             vs = spec_violations(inp, r)
-        print('implementation (%s) now: %s' % (fw.REPO, json.dumps({k: r.get(k) for k in ('k', 'status', 'files', 'trace', 'leaked',
-                                                                                         'passes', 'done', 'max_open')})[:1500]))
+        print('implementation (%s) now: %s' % (fw.REPO, json.dumps({k: r.get(k) for k in ('k', 'status', 'statuses', 'files', 'trace',
+                                                                                         'leaked', 'passes', 'done', 'max_open')})[:1500]))
         for k, t in vs:
             print('VIOLATION property=C19 %s: %s' % (k, t))
         if not vs:
